@@ -18,7 +18,13 @@ import (
 	"time"
 )
 
-const VerifDir = "/verif"
+// VerifDir is the root of the machinery (/verif; a private copy during development).
+var VerifDir = func() string {
+	if d := os.Getenv("VH_VERIF"); d != "" {
+		return d
+	}
+	return "/verif"
+}()
 
 type runState struct {
 	p      *Property
@@ -118,7 +124,11 @@ func matchOnly(only, name string) bool {
 }
 
 func (rs *runState) goBuild(out string, extra []string, pkgs ...string) error {
-	args := append([]string{"build", "-tags", "verif"}, extra...)
+	args := []string{"build", "-tags", "verif"}
+	if mf := os.Getenv("VH_MODFILE"); mf != "" {
+		args = append(args, "-modfile="+mf)
+	}
+	args = append(args, extra...)
 	args = append(args, "-o", out)
 	args = append(args, pkgs...)
 	cmd := exec.Command("go", args...)
